@@ -140,8 +140,127 @@ def check(prog: Program, rep: Report, relpaths: Iterable[str], clause="G1", floo
             rep.ok(RULE, m, "all-names-bound", f"{scopes} function scopes, every read name bound", clause=clause,
                    nontrivial=False)
     rep.floor("G1 function scopes analysed", n_funcs, floor)
+    late_binding(prog, rep, relpaths, clause=clause)
 
 
 def _strip_comp(qual: str) -> str:
     parts = [p for p in qual.split(".") if p not in ("listcomp", "genexpr", "setcomp", "dictcomp", "lambda")]
     return ".".join(parts)
+
+
+# ---- closures created in a loop that capture the loop's variables ------------------------------------------------------------
+LB_RULE = "G1.late-binding"
+LB_TEXT = ("a lambda / nested function created inside a loop (or comprehension) that outlives the iteration - appended to a "
+           "container, stored in an attribute or subscript, wrapped by partial, returned or yielded - does not read a variable "
+           "the loop re-binds (loop target or assigned in the loop body) as a free variable: Python closures capture the "
+           "variable, not its value, so every such callable would see the value of the last iteration (bind the value with a "
+           "default argument or functools.partial instead)")
+_STORING_METHODS = {"append", "add", "insert", "extend", "setdefault", "update", "appendleft", "register"}
+
+
+def _free_names(fn) -> Set[str]:
+    """Names a lambda / def body reads that it does not bind itself (parameters, own assignments, comprehension targets)."""
+    a = fn.args
+    bound = {x.arg for x in a.posonlyargs + a.args + a.kwonlyargs}
+    if a.vararg:
+        bound.add(a.vararg.arg)
+    if a.kwarg:
+        bound.add(a.kwarg.arg)
+    body = [fn.body] if isinstance(fn, ast.Lambda) else list(fn.body)
+    for b in body:
+        for n in ast.walk(b):
+            if isinstance(n, ast.Name) and isinstance(n.ctx, (ast.Store, ast.Del)):
+                bound.add(n.id)
+    free = set()
+    for b in body:
+        for n in ast.walk(b):
+            if isinstance(n, ast.Name) and isinstance(n.ctx, ast.Load) and n.id not in bound:
+                free.add(n.id)
+    return free
+
+
+def _escapes(closure, parents) -> Optional[str]:
+    """How the closure object leaves the iteration, or None when that cannot be told."""
+    cur = closure
+    while True:
+        par = parents.get(id(cur))
+        if par is None:
+            return None
+        if isinstance(par, ast.Call):
+            f = par.func
+            if cur is f:
+                return None  # called on the spot
+            nm = f.attr if isinstance(f, ast.Attribute) else getattr(f, "id", "")
+            if nm in _STORING_METHODS:
+                return f".{nm}(...)"
+            if nm == "partial":
+                cur = par
+                continue
+            return None  # passed to some call: used during the iteration as far as can be told (sorted(key=...), map ...)
+        if isinstance(par, (ast.List, ast.Tuple, ast.Set, ast.Dict, ast.keyword, ast.Starred, ast.IfExp)):
+            cur = par
+            continue
+        if isinstance(par, ast.Assign):
+            if any(isinstance(t, (ast.Attribute, ast.Subscript)) for t in par.targets):
+                return "stored in an attribute / subscript"
+            return None
+        if isinstance(par, (ast.Return, ast.Yield)):
+            return "returned / yielded"
+        if isinstance(par, (ast.ListComp, ast.SetComp, ast.GeneratorExp, ast.DictComp)):
+            return "element of a comprehension"
+        return None
+
+
+def late_binding(prog: Program, rep: Report, relpaths: Iterable[str], clause="G1"):
+    rep.rule(LB_RULE, LB_TEXT)
+    n_loops = 0
+    for rel in relpaths:
+        m = prog.raw.module(rel)
+        parents = {}
+        for p in ast.walk(m.tree):
+            for c in ast.iter_child_nodes(p):
+                parents[id(c)] = p
+        hits = []
+        for fn in ast.walk(m.tree):
+            if not isinstance(fn, (ast.FunctionDef, ast.AsyncFunctionDef)):
+                continue
+            for loop in ast.walk(fn):
+                if isinstance(loop, (ast.For, ast.AsyncFor, ast.While)):
+                    rebound = {n.id for s in ([loop.target] if hasattr(loop, "target") else []) + list(loop.body)
+                               for n in ast.walk(s) if isinstance(n, ast.Name) and isinstance(n.ctx, ast.Store)}
+                    region = list(loop.body)
+                elif isinstance(loop, (ast.ListComp, ast.SetComp, ast.GeneratorExp, ast.DictComp)):
+                    rebound = {n.id for g in loop.generators for n in ast.walk(g.target) if isinstance(n, ast.Name)}
+                    region = [loop.elt] if not isinstance(loop, ast.DictComp) else [loop.key, loop.value]
+                else:
+                    continue
+                n_loops += 1
+                for s in region:
+                    for c in ast.walk(s):
+                        if isinstance(c, (ast.Lambda, ast.FunctionDef)):
+                            late = _free_names(c) & rebound
+                            if not late:
+                                continue
+                            how = _escapes(c, parents) if isinstance(c, ast.Lambda) else None
+                            if isinstance(c, ast.FunctionDef):
+                                # a nested def escapes when its name is stored / appended inside the loop
+                                for u in ast.walk(loop):
+                                    if isinstance(u, ast.Name) and u.id == c.name and isinstance(u.ctx, ast.Load):
+                                        how = how or _escapes(u, parents)
+                            if how:
+                                hits.append((fn, c, sorted(late), how))
+        seen = set()
+        for fn, c, late, how in hits:
+            key = (fn.name, c.lineno, tuple(late))
+            if key in seen:
+                continue
+            seen.add(key)
+            rep.bad(LB_RULE, m, f"closure-over:{','.join(late)}", f"a {'lambda' if isinstance(c, ast.Lambda) else 'nested def'} "
+                    f"created in a loop of {fn.name} reads the loop-bound variable(s) {', '.join(late)} as free variables and is "
+                    f"{how}: after the loop every such callable sees the last iteration's value", line=c.lineno,
+                    clause=clause).func = (f"{parents[id(fn)].name}.{fn.name}" if isinstance(parents.get(id(fn)), ast.ClassDef)
+                                           else fn.name)
+        if not hits:
+            rep.ok(LB_RULE, m, "no-late-binding-closure", "no escaping closure over a loop-bound variable", clause=clause,
+                   nontrivial=False)
+    return n_loops
